@@ -356,3 +356,24 @@ r17_5.rule_id = "R17.5"
 
 RULES.append(r17_5)
 FLOORS["R17.5"] = 4
+
+
+def r17_6(ctx):
+    """the relocation is ordered against every operation by the cell locks: a bucket looked up outside the lock scope may belong to the table that
+    internal_resize()/resize() has just discarded - the element inserted there is lost by the rehash (shared with C16)"""
+    from sa import run as _r
+    from . import C16
+    tier = ctx.tier if ctx.tier in C16.TUS else "quick"
+    db, info = _r.extract(C16.TUS[tier], C16.FILES, ".", max_inst=C16.MAX_INST.get(tier, 0))
+    saved = ctx.db
+    ctx.db = db
+    try:
+        n = C16.rule_bucket_lock_scope(ctx, "R17.6", "Otherwise an element is inserted into (or searched in) a bucket table the concurrent resize has already replaced: "
+                                       "it is lost by the rehash (C17).")
+    finally:
+        ctx.db = saved
+    ctx.info["R17.6_functions"] = info["functions"]
+r17_6.rule_id = "R17.6"
+
+RULES.append(r17_6)
+FLOORS["R17.6"] = 15
